@@ -63,53 +63,75 @@ Section G.
     intros; destruct_cplx_vars; unfold Dk, cdot, two, six, dseg_sq_poly, dseg_abs2_poly;
     norm_num; try (apply cplx_eq; cbn [fst snd]); ring.
 
-  Section Cubic.
-    Variables (a3 a2 a1 a0 : Cplx K) (t : K).
-    Let p := [a3; a2; a1; a0].
-    Let f := dseg_sq_poly N p.
-    Let g := dseg_abs2_poly N p.
-    Let d1 := Dk p 1 t. Let d2 := Dk p 2 t. Let d3 := Dk p 3 t.
-    Lemma cub_f0 : cpeval N f t = cmul N d1 d1. Proof. subst p f g d1 d2 d3. ev. Qed.
-    Lemma cub_f1 : cpeval N (iter (cpderiv N) 1 f) t = cscale N two (cmul N d1 d2).
-    Proof. subst p f g d1 d2 d3. ev. Qed.
-    Lemma cub_f2 : cpeval N (iter (cpderiv N) 2 f) t
-                   = cadd N (cscale N two (cmul N d2 d2)) (cscale N two (cmul N d1 d3)).
-    Proof. subst p f g d1 d2 d3. ev. Qed.
-    Lemma cub_f3 : cpeval N (iter (cpderiv N) 3 f) t = cscale N six (cmul N d2 d3).
-    Proof. subst p f g d1 d2 d3. ev. Qed.
-    Lemma cub_f4 : cpeval N (iter (cpderiv N) 4 f) t = cscale N six (cmul N d3 d3).
-    Proof. subst p f g d1 d2 d3. ev. Qed.
-    Lemma cub_g0 : peval N g t = cdot d1 d1. Proof. subst p f g d1 d2 d3. ev. Qed.
-    Lemma cub_g1 : peval N (iter (pderiv N) 1 g) t = mul N two (cdot d1 d2).
-    Proof. subst p f g d1 d2 d3. ev. Qed.
-    Lemma cub_g2 : peval N (iter (pderiv N) 2 g) t
-                   = add N (mul N two (cdot d2 d2)) (mul N two (cdot d1 d3)).
-    Proof. subst p f g d1 d2 d3. ev. Qed.
-    Lemma cub_g3 : peval N (iter (pderiv N) 3 g) t = mul N six (cdot d2 d3).
-    Proof. subst p f g d1 d2 d3. ev. Qed.
-    Lemma cub_g4 : peval N (iter (pderiv N) 4 g) t = mul N six (cdot d3 d3).
-    Proof. subst p f g d1 d2 d3. ev. Qed.
-    Lemma cub_glen : length g = 5%nat. Proof. reflexivity. Qed.
-  End Cubic.
+  Lemma cub_f0 (a3 a2 a1 a0 : Cplx K) (t : K) :
+    cpeval N (dseg_sq_poly N [a3; a2; a1; a0]) t
+    = cmul N (Dk [a3; a2; a1; a0] 1 t) (Dk [a3; a2; a1; a0] 1 t).
+  Proof. ev. Qed.
+  Lemma cub_f1 (a3 a2 a1 a0 : Cplx K) (t : K) :
+    cpeval N (iter (cpderiv N) 1 (dseg_sq_poly N [a3; a2; a1; a0])) t
+    = cscale N two (cmul N (Dk [a3; a2; a1; a0] 1 t) (Dk [a3; a2; a1; a0] 2 t)).
+  Proof. ev. Qed.
+  Lemma cub_f2 (a3 a2 a1 a0 : Cplx K) (t : K) :
+    cpeval N (iter (cpderiv N) 2 (dseg_sq_poly N [a3; a2; a1; a0])) t
+    = cadd N (cscale N two (cmul N (Dk [a3; a2; a1; a0] 2 t) (Dk [a3; a2; a1; a0] 2 t))) (cscale N two (cmul N (Dk [a3; a2; a1; a0] 1 t) (Dk [a3; a2; a1; a0] 3 t))).
+  Proof. ev. Qed.
+  Lemma cub_f3 (a3 a2 a1 a0 : Cplx K) (t : K) :
+    cpeval N (iter (cpderiv N) 3 (dseg_sq_poly N [a3; a2; a1; a0])) t
+    = cscale N six (cmul N (Dk [a3; a2; a1; a0] 2 t) (Dk [a3; a2; a1; a0] 3 t)).
+  Proof. ev. Qed.
+  Lemma cub_f4 (a3 a2 a1 a0 : Cplx K) (t : K) :
+    cpeval N (iter (cpderiv N) 4 (dseg_sq_poly N [a3; a2; a1; a0])) t
+    = cscale N six (cmul N (Dk [a3; a2; a1; a0] 3 t) (Dk [a3; a2; a1; a0] 3 t)).
+  Proof. ev. Qed.
+  Lemma cub_g0 (a3 a2 a1 a0 : Cplx K) (t : K) :
+    peval N (dseg_abs2_poly N [a3; a2; a1; a0]) t
+    = cdot (Dk [a3; a2; a1; a0] 1 t) (Dk [a3; a2; a1; a0] 1 t).
+  Proof. ev. Qed.
+  Lemma cub_g1 (a3 a2 a1 a0 : Cplx K) (t : K) :
+    peval N (iter (pderiv N) 1 (dseg_abs2_poly N [a3; a2; a1; a0])) t
+    = mul N two (cdot (Dk [a3; a2; a1; a0] 1 t) (Dk [a3; a2; a1; a0] 2 t)).
+  Proof. ev. Qed.
+  Lemma cub_g2 (a3 a2 a1 a0 : Cplx K) (t : K) :
+    peval N (iter (pderiv N) 2 (dseg_abs2_poly N [a3; a2; a1; a0])) t
+    = add N (mul N two (cdot (Dk [a3; a2; a1; a0] 2 t) (Dk [a3; a2; a1; a0] 2 t))) (mul N two (cdot (Dk [a3; a2; a1; a0] 1 t) (Dk [a3; a2; a1; a0] 3 t))).
+  Proof. ev. Qed.
+  Lemma cub_g3 (a3 a2 a1 a0 : Cplx K) (t : K) :
+    peval N (iter (pderiv N) 3 (dseg_abs2_poly N [a3; a2; a1; a0])) t
+    = mul N six (cdot (Dk [a3; a2; a1; a0] 2 t) (Dk [a3; a2; a1; a0] 3 t)).
+  Proof. ev. Qed.
+  Lemma cub_g4 (a3 a2 a1 a0 : Cplx K) (t : K) :
+    peval N (iter (pderiv N) 4 (dseg_abs2_poly N [a3; a2; a1; a0])) t
+    = mul N six (cdot (Dk [a3; a2; a1; a0] 3 t) (Dk [a3; a2; a1; a0] 3 t)).
+  Proof. ev. Qed.
+  Lemma cub_glen (a3 a2 a1 a0 : Cplx K) : length (dseg_abs2_poly N [a3; a2; a1; a0]) = 5%nat.
+  Proof. reflexivity. Qed.
 
-  Section Quad.
-    Variables (a2 a1 a0 : Cplx K) (t : K).
-    Let p := [a2; a1; a0].
-    Let f := dseg_sq_poly N p.
-    Let g := dseg_abs2_poly N p.
-    Let d1 := Dk p 1 t. Let d2 := Dk p 2 t.
-    Lemma quad_f0 : cpeval N f t = cmul N d1 d1. Proof. subst p f g d1 d2. ev. Qed.
-    Lemma quad_f1 : cpeval N (iter (cpderiv N) 1 f) t = cscale N two (cmul N d1 d2).
-    Proof. subst p f g d1 d2. ev. Qed.
-    Lemma quad_f2 : cpeval N (iter (cpderiv N) 2 f) t = cscale N two (cmul N d2 d2).
-    Proof. subst p f g d1 d2. ev. Qed.
-    Lemma quad_g0 : peval N g t = cdot d1 d1. Proof. subst p f g d1 d2. ev. Qed.
-    Lemma quad_g1 : peval N (iter (pderiv N) 1 g) t = mul N two (cdot d1 d2).
-    Proof. subst p f g d1 d2. ev. Qed.
-    Lemma quad_g2 : peval N (iter (pderiv N) 2 g) t = mul N two (cdot d2 d2).
-    Proof. subst p f g d1 d2. ev. Qed.
-    Lemma quad_glen : length g = 3%nat. Proof. reflexivity. Qed.
-  End Quad.
+  Lemma quad_f0 (a2 a1 a0 : Cplx K) (t : K) :
+    cpeval N (dseg_sq_poly N [a2; a1; a0]) t
+    = cmul N (Dk [a2; a1; a0] 1 t) (Dk [a2; a1; a0] 1 t).
+  Proof. ev. Qed.
+  Lemma quad_f1 (a2 a1 a0 : Cplx K) (t : K) :
+    cpeval N (iter (cpderiv N) 1 (dseg_sq_poly N [a2; a1; a0])) t
+    = cscale N two (cmul N (Dk [a2; a1; a0] 1 t) (Dk [a2; a1; a0] 2 t)).
+  Proof. ev. Qed.
+  Lemma quad_f2 (a2 a1 a0 : Cplx K) (t : K) :
+    cpeval N (iter (cpderiv N) 2 (dseg_sq_poly N [a2; a1; a0])) t
+    = cscale N two (cmul N (Dk [a2; a1; a0] 2 t) (Dk [a2; a1; a0] 2 t)).
+  Proof. ev. Qed.
+  Lemma quad_g0 (a2 a1 a0 : Cplx K) (t : K) :
+    peval N (dseg_abs2_poly N [a2; a1; a0]) t
+    = cdot (Dk [a2; a1; a0] 1 t) (Dk [a2; a1; a0] 1 t).
+  Proof. ev. Qed.
+  Lemma quad_g1 (a2 a1 a0 : Cplx K) (t : K) :
+    peval N (iter (pderiv N) 1 (dseg_abs2_poly N [a2; a1; a0])) t
+    = mul N two (cdot (Dk [a2; a1; a0] 1 t) (Dk [a2; a1; a0] 2 t)).
+  Proof. ev. Qed.
+  Lemma quad_g2 (a2 a1 a0 : Cplx K) (t : K) :
+    peval N (iter (pderiv N) 2 (dseg_abs2_poly N [a2; a1; a0])) t
+    = mul N two (cdot (Dk [a2; a1; a0] 2 t) (Dk [a2; a1; a0] 2 t)).
+  Proof. ev. Qed.
+  Lemma quad_glen (a2 a1 a0 : Cplx K) : length (dseg_abs2_poly N [a2; a1; a0]) = 3%nat.
+  Proof. reflexivity. Qed.
 
   (* factorisation of the derivative polynomial at a zero (used for the limit):
        D(tau) = D(t0) + (tau - t0) D'(t0) + (tau - t0)^2 D''(t0)/2   (cubic curve)
@@ -162,7 +184,7 @@ Proof.
   - apply pzero_peval; exact Hz.
   - apply IH. apply pzero_pderiv; exact Hz.
 Qed.
-Lemma pzero_all (p : list R) : Forall (fun c => c = 0) p -> pzero NR p = true.
+Lemma pzero_all (p : list R) : List.Forall (fun c => c = 0) p -> pzero NR p = true.
 Proof.
   induction 1 as [|c q Hc Hq IH]; [reflexivity|].
   cbn [pzero forallb]. apply andb_true_intro. split; [apply Req_b_true; exact Hc|exact IH].
@@ -221,7 +243,7 @@ Qed.
 Definition right_half (w : Cplx R) : Prop := 0 < fst w \/ (fst w = 0 /\ 0 <= snd w).
 Definition left_half (w : Cplx R) : Prop := fst w < 0 \/ (fst w = 0 /\ snd w < 0).
 Lemma half_cases w : right_half w \/ left_half w.
-Proof. unfold right_half, left_half. destruct (Rtotal_order (fst w) 0) as [H|[H|H]]; try lra.
+Proof. unfold right_half, left_half. destruct (Rtotal_order (fst w) 0) as [H|[H|H]];
   destruct (Rlt_le_dec (snd w) 0); lra. Qed.
 
 Lemma csqrt_parts (u v : R) :
@@ -329,13 +351,13 @@ Proof.
   rewrite (@crational_limit_spec 2); cycle 1.
   - unfold p. rewrite (cub_glen NR). lia.
   - intros j Hj. destruct j as [|[|j]]; [| |lia].
-    + cbn [iter]. unfold p. rewrite (cub_g0 NR NumR_ok), (cub_f0 NR NumR_ok). fold p. rewrite H1.
+    + cbn [iter]. unfold p. rewrite (cub_g0 NumR_ok), (cub_f0 NumR_ok). fold p. rewrite H1.
       rewrite cdot0, cmul0. auto.
-    + unfold p. rewrite (cub_g1 NR NumR_ok), (cub_f1 NR NumR_ok). fold p. rewrite H1.
+    + unfold p. rewrite (cub_g1 NumR_ok), (cub_f1 NumR_ok). fold p. rewrite H1.
       rewrite cdot0, cmul0, cscale0. split; [cbn; ring|reflexivity].
-  - unfold p. rewrite (cub_g2 NR NumR_ok). fold p. rewrite H1, cdot0, two_R. cbn [add mul NumR]. lra.
+  - unfold p. rewrite (cub_g2 NumR_ok). fold p. rewrite H1, cdot0, two_R. cbn [add mul NumR]. lra.
   - cbn [res_map]. f_equal. unfold principal_dir. f_equal.
-    unfold p. rewrite (cub_g2 NR NumR_ok), (cub_f2 NR NumR_ok). fold p.
+    unfold p. rewrite (cub_g2 NumR_ok), (cub_f2 NumR_ok). fold p.
     rewrite H1, cdot0, cmul0, cscale0, cadd0r, two_R. cbn [add mul NumR].
     replace (2 * cdot NR (DkR p 2 t0) (DkR p 2 t0) + 2 * 0) with (2 * cdot NR (DkR p 2 t0) (DkR p 2 t0)) by ring.
     apply sq_over_norm2; [exact H2|lra].
@@ -352,17 +374,17 @@ Proof.
   rewrite (@crational_limit_spec 4); cycle 1.
   - unfold p. rewrite (cub_glen NR). lia.
   - intros j Hj. destruct j as [|[|[|[|j]]]]; [| | | |lia].
-    + cbn [iter]. unfold p. rewrite (cub_g0 NR NumR_ok), (cub_f0 NR NumR_ok). fold p. rewrite H1.
+    + cbn [iter]. unfold p. rewrite (cub_g0 NumR_ok), (cub_f0 NumR_ok). fold p. rewrite H1.
       rewrite cdot0, cmul0. auto.
-    + unfold p. rewrite (cub_g1 NR NumR_ok), (cub_f1 NR NumR_ok). fold p. rewrite H1.
+    + unfold p. rewrite (cub_g1 NumR_ok), (cub_f1 NumR_ok). fold p. rewrite H1.
       rewrite cdot0, cmul0, cscale0. split; [cbn; ring|reflexivity].
-    + unfold p. rewrite (cub_g2 NR NumR_ok), (cub_f2 NR NumR_ok). fold p. rewrite H1, H2.
+    + unfold p. rewrite (cub_g2 NumR_ok), (cub_f2 NumR_ok). fold p. rewrite H1, H2.
       rewrite !cdot0, !cmul0, !cscale0, cadd0r. split; [cbn; ring|reflexivity].
-    + unfold p. rewrite (cub_g3 NR NumR_ok), (cub_f3 NR NumR_ok). fold p. rewrite H2.
+    + unfold p. rewrite (cub_g3 NumR_ok), (cub_f3 NumR_ok). fold p. rewrite H2.
       rewrite !cdot0, !cmul0, !cscale0. split; [cbn; ring|reflexivity].
-  - unfold p. rewrite (cub_g4 NR NumR_ok). fold p. rewrite six_R. cbn [mul NumR]. lra.
+  - unfold p. rewrite (cub_g4 NumR_ok). fold p. rewrite six_R. cbn [mul NumR]. lra.
   - cbn [res_map]. f_equal. unfold principal_dir. f_equal.
-    unfold p. rewrite (cub_g4 NR NumR_ok), (cub_f4 NR NumR_ok). fold p. rewrite six_R. cbn [mul NumR].
+    unfold p. rewrite (cub_g4 NumR_ok), (cub_f4 NumR_ok). fold p. rewrite six_R. cbn [mul NumR].
     apply sq_over_norm2; [exact H3|lra].
 Qed.
 
@@ -377,12 +399,242 @@ Proof.
   rewrite (@crational_limit_spec 2); cycle 1.
   - unfold p. rewrite (quad_glen NR). lia.
   - intros j Hj. destruct j as [|[|j]]; [| |lia].
-    + cbn [iter]. unfold p. rewrite (quad_g0 NR NumR_ok), (quad_f0 NR NumR_ok). fold p. rewrite H1.
+    + cbn [iter]. unfold p. rewrite (quad_g0 NumR_ok), (quad_f0 NumR_ok). fold p. rewrite H1.
       rewrite cdot0, cmul0. auto.
-    + unfold p. rewrite (quad_g1 NR NumR_ok), (quad_f1 NR NumR_ok). fold p. rewrite H1.
+    + unfold p. rewrite (quad_g1 NumR_ok), (quad_f1 NumR_ok). fold p. rewrite H1.
       rewrite cdot0, cmul0, cscale0. split; [cbn; ring|reflexivity].
-  - unfold p. rewrite (quad_g2 NR NumR_ok). fold p. rewrite two_R. cbn [mul NumR]. lra.
+  - unfold p. rewrite (quad_g2 NumR_ok). fold p. rewrite two_R. cbn [mul NumR]. lra.
   - cbn [res_map]. f_equal. unfold principal_dir. f_equal.
-    unfold p. rewrite (quad_g2 NR NumR_ok), (quad_f2 NR NumR_ok). fold p. rewrite two_R. cbn [mul NumR].
+    unfold p. rewrite (quad_g2 NumR_ok), (quad_f2 NumR_ok). fold p. rewrite two_R. cbn [mul NumR].
     apply sq_over_norm2; [exact H2|lra].
+Qed.
+
+(* ---- the same for the segment classes ---- *)
+Lemma cubic_d_Dk s c1 c2 e t n : (1 <= n)%Z ->
+  cubic_d NR s c1 c2 e t n = DkR (cubic_poly NR s c1 c2 e) (Z.to_nat n) t.
+Proof. intros H. unfold cubic_d. rewrite (cubic_deriv_formal NR NumR_ok) by exact H. reflexivity. Qed.
+Lemma quad_d_Dk s c e t n : (1 <= n)%Z ->
+  quad_d NR s c e t n = DkR (quad_poly NR s c e) (Z.to_nat n) t.
+Proof. intros H. unfold quad_d. rewrite (quad_deriv_formal NR NumR_ok) by exact H. reflexivity. Qed.
+
+Lemma bezier_unit_tangent_singular poly t :
+  bezier_unit_tangent NR TR poly (0, 0) t = unit_tangent_fallback NR TR poly t.
+Proof.
+  unfold bezier_unit_tangent. rewrite cabs_R.
+  assert (E : nrm (0, 0) = 0) by (apply nrm_zero_iff; reflexivity).
+  rewrite E. change (zero NR) with 0. rewrite eqb_R_true. reflexivity.
+Qed.
+
+Lemma cubic_singular_k1 s c1 c2 e t0 :
+  cubic_d NR s c1 c2 e t0 1 = (0, 0) -> cubic_d NR s c1 c2 e t0 2 <> (0, 0) ->
+  cubic_unit_tangent NR TR s c1 c2 e t0 = Val (principal_dir (cubic_d NR s c1 c2 e t0 2)).
+Proof.
+  intros H1 H2. unfold cubic_unit_tangent. rewrite H1, bezier_unit_tangent_singular.
+  rewrite cubic_d_Dk in H1, H2 |- * by lia. unfold cubic_poly in *.
+  apply fallback_cubic_k1; assumption.
+Qed.
+Lemma cubic_singular_k2 s c1 c2 e t0 :
+  cubic_d NR s c1 c2 e t0 1 = (0, 0) -> cubic_d NR s c1 c2 e t0 2 = (0, 0) ->
+  cubic_d NR s c1 c2 e t0 3 <> (0, 0) ->
+  cubic_unit_tangent NR TR s c1 c2 e t0 = Val (principal_dir (cubic_d NR s c1 c2 e t0 3)).
+Proof.
+  intros H1 H2 H3. unfold cubic_unit_tangent. rewrite H1, bezier_unit_tangent_singular.
+  rewrite cubic_d_Dk in H1, H2, H3 |- * by lia. unfold cubic_poly in *.
+  apply fallback_cubic_k2; assumption.
+Qed.
+Lemma quad_singular_k1 s c e t0 :
+  quad_d NR s c e t0 1 = (0, 0) -> quad_d NR s c e t0 2 <> (0, 0) ->
+  quad_unit_tangent NR TR s c e t0 = Val (principal_dir (quad_d NR s c e t0 2)).
+Proof.
+  intros H1 H2. unfold quad_unit_tangent. rewrite H1, bezier_unit_tangent_singular.
+  rewrite quad_d_Dk in H1, H2 |- * by lia. unfold quad_poly in *.
+  apply fallback_quad_k1; assumption.
+Qed.
+
+(* ================= the limit of the quotient d/|d| from one side ================= *)
+Definition lim_right (f : R -> Cplx R) (t0 : R) (u : Cplx R) : Prop :=
+  filterlim (fun tau => fst (f tau)) (at_right t0) (locally (fst u)) /\
+  filterlim (fun tau => snd (f tau)) (at_right t0) (locally (snd u)).
+Definition lim_left (f : R -> Cplx R) (t0 : R) (u : Cplx R) : Prop :=
+  filterlim (fun tau => fst (f tau)) (at_left t0) (locally (fst u)) /\
+  filterlim (fun tau => snd (f tau)) (at_left t0) (locally (snd u)).
+(* the quotient whose limit unit_tangent is documented to return *)
+Definition tangent_quot (p : list (Cplx R)) (tau : R) : Cplx R := unit_of NR TR (DkR p 1 tau).
+
+Lemma unit_of_cscale_any (l : R) d : 0 < l -> unit_of NR TR (cscale NR l d) = unit_of NR TR d.
+Proof.
+  intros Hl. destruct d as [x y].
+  destruct (Req_dec x 0) as [Hx|Hx]; [destruct (Req_dec y 0) as [Hy|Hy]|].
+  - subst. replace (cscale NR l (0, 0)) with ((0, 0) : Cplx R); [reflexivity|].
+    unfold cscale; cbn. f_equal; ring.
+  - apply unit_of_cscale; [exact Hl|]. intros E; inversion E; contradiction.
+  - apply unit_of_cscale; [exact Hl|]. intros E; inversion E; contradiction.
+Qed.
+
+Lemma at_right_le_locally (x : R) : filter_le (at_right x) (locally x).
+Proof. apply filter_le_within. Qed.
+Lemma at_left_le_locally (x : R) : filter_le (at_left x) (locally x).
+Proof. apply filter_le_within. Qed.
+
+(* tau |-> unit_of (a + (tau - t0) b) is continuous at t0 when a <> 0 *)
+Lemma unit_of_affine_cont (a b : Cplx R) t0 : a <> (0, 0) ->
+  filterlim (fun tau => fst (unit_of NR TR (cadd NR a (cscale NR (tau - t0) b)))) (locally t0)
+            (locally (fst (unit_of NR TR a))) /\
+  filterlim (fun tau => snd (unit_of NR TR (cadd NR a (cscale NR (tau - t0) b)))) (locally t0)
+            (locally (snd (unit_of NR TR a))).
+Proof.
+  intros Ha. pose proof (nrm_pos Ha) as P. destruct a as [a1 a2], b as [b1 b2].
+  pose proof (sumsq_pos Ha) as Q.
+  assert (E : forall tau, unit_of NR TR (cadd NR (a1, a2) (cscale NR (tau - t0) (b1, b2))) =
+     ((a1 + (tau - t0) * b1) / sqrt ((a1 + (tau - t0) * b1) * (a1 + (tau - t0) * b1) + (a2 + (tau - t0) * b2) * (a2 + (tau - t0) * b2)),
+      (a2 + (tau - t0) * b2) / sqrt ((a1 + (tau - t0) * b1) * (a1 + (tau - t0) * b1) + (a2 + (tau - t0) * b2) * (a2 + (tau - t0) * b2)))).
+  { intros tau. reflexivity. }
+  assert (V : unit_of NR TR (a1, a2) =
+     ((a1 + (t0 - t0) * b1) / sqrt ((a1 + (t0 - t0) * b1) * (a1 + (t0 - t0) * b1) + (a2 + (t0 - t0) * b2) * (a2 + (t0 - t0) * b2)),
+      (a2 + (t0 - t0) * b2) / sqrt ((a1 + (t0 - t0) * b1) * (a1 + (t0 - t0) * b1) + (a2 + (t0 - t0) * b2) * (a2 + (t0 - t0) * b2)))).
+  { rewrite unit_of_R. unfold nrm; cbn [fst snd].
+    replace (a1 + (t0 - t0) * b1) with a1 by ring. replace (a2 + (t0 - t0) * b2) with a2 by ring.
+    reflexivity. }
+  rewrite V. cbn [fst snd].
+  assert (Q' : 0 < (a1 + (t0 - t0) * b1) * (a1 + (t0 - t0) * b1) + (a2 + (t0 - t0) * b2) * (a2 + (t0 - t0) * b2)).
+  { replace (a1 + (t0 - t0) * b1) with a1 by ring. replace (a2 + (t0 - t0) * b2) with a2 by ring. exact Q. }
+  split.
+  - apply (filterlim_ext (fun tau => (a1 + (tau - t0) * b1) / sqrt ((a1 + (tau - t0) * b1) * (a1 + (tau - t0) * b1) + (a2 + (tau - t0) * b2) * (a2 + (tau - t0) * b2)))).
+    { intros tau. rewrite E. reflexivity. }
+    apply (ex_derive_continuous (fun tau => (a1 + (tau - t0) * b1) / sqrt ((a1 + (tau - t0) * b1) * (a1 + (tau - t0) * b1) + (a2 + (tau - t0) * b2) * (a2 + (tau - t0) * b2)))).
+    auto_derive. split; [exact Q'|]. split; [|exact I].
+    apply Rgt_not_eq, sqrt_lt_R0, Q'.
+  - apply (filterlim_ext (fun tau => (a2 + (tau - t0) * b2) / sqrt ((a1 + (tau - t0) * b1) * (a1 + (tau - t0) * b1) + (a2 + (tau - t0) * b2) * (a2 + (tau - t0) * b2)))).
+    { intros tau. rewrite E. reflexivity. }
+    apply (ex_derive_continuous (fun tau => (a2 + (tau - t0) * b2) / sqrt ((a1 + (tau - t0) * b1) * (a1 + (tau - t0) * b1) + (a2 + (tau - t0) * b2) * (a2 + (tau - t0) * b2)))).
+    auto_derive. split; [exact Q'|]. split; [|exact I].
+    apply Rgt_not_eq, sqrt_lt_R0, Q'.
+Qed.
+
+(* d(tau) = (tau - t0) (a + (tau - t0) b) with a <> 0: simple zero at t0 *)
+Lemma lim_right_simple (a b : Cplx R) t0 : a <> (0, 0) ->
+  lim_right (fun tau => unit_of NR TR (cscale NR (tau - t0) (cadd NR a (cscale NR (tau - t0) b))))
+            t0 (unit_of NR TR a).
+Proof.
+  intros Ha. destruct (unit_of_affine_cont b t0 Ha) as [C1 C2]. split.
+  - eapply filterlim_ext_loc; [|eapply filterlim_filter_le_1; [apply at_right_le_locally|exact C1]].
+    exists (mkposreal 1 Rlt_0_1). intros y _ Hy. cbv beta.
+    rewrite (@unit_of_cscale_any (y - t0)) by lra. reflexivity.
+  - eapply filterlim_ext_loc; [|eapply filterlim_filter_le_1; [apply at_right_le_locally|exact C2]].
+    exists (mkposreal 1 Rlt_0_1). intros y _ Hy. cbv beta.
+    rewrite (@unit_of_cscale_any (y - t0)) by lra. reflexivity.
+Qed.
+
+Lemma cscale_neg (h : R) (d : Cplx R) : cscale NR h d = cscale NR (- h) (copp NR d).
+Proof. destruct d as [x y]. unfold cscale, copp; cbn. f_equal; ring. Qed.
+
+Lemma lim_left_simple (a b : Cplx R) t0 : a <> (0, 0) ->
+  lim_left (fun tau => unit_of NR TR (cscale NR (tau - t0) (cadd NR a (cscale NR (tau - t0) b))))
+           t0 (copp NR (unit_of NR TR a)).
+Proof.
+  intros Ha. destruct (unit_of_affine_cont b t0 Ha) as [C1 C2].
+  assert (O1 := filterlim_comp _ _ _ _ Ropp _ _ _ C1 (filterlim_opp (fst (unit_of NR TR a)))).
+  assert (O2 := filterlim_comp _ _ _ _ Ropp _ _ _ C2 (filterlim_opp (snd (unit_of NR TR a)))).
+  split.
+  - eapply filterlim_ext_loc; [|eapply filterlim_filter_le_1; [apply at_left_le_locally|exact O1]].
+    exists (mkposreal 1 Rlt_0_1). intros y _ Hy. cbv beta.
+    rewrite (cscale_neg (y - t0) (cadd NR a (cscale NR (y - t0) b))), (@unit_of_cscale_any (- (y - t0))) by lra. rewrite unit_of_copp. reflexivity.
+  - eapply filterlim_ext_loc; [|eapply filterlim_filter_le_1; [apply at_left_le_locally|exact O2]].
+    exists (mkposreal 1 Rlt_0_1). intros y _ Hy. cbv beta.
+    rewrite (cscale_neg (y - t0) (cadd NR a (cscale NR (y - t0) b))), (@unit_of_cscale_any (- (y - t0))) by lra. rewrite unit_of_copp. reflexivity.
+Qed.
+
+(* d(tau) = (tau - t0)^2/2 * a: double zero at t0, same limit from both sides *)
+Lemma lim_double (a : Cplx R) t0 :
+  lim_right (fun tau => unit_of NR TR (cscale NR ((tau - t0) * (tau - t0) / 2) a)) t0 (unit_of NR TR a) /\
+  lim_left (fun tau => unit_of NR TR (cscale NR ((tau - t0) * (tau - t0) / 2) a)) t0 (unit_of NR TR a).
+Proof.
+  assert (P : forall y, y <> t0 -> 0 < (y - t0) * (y - t0) / 2).
+  { intros y Hy. assert (y - t0 <> 0) by lra. nra. }
+  split; split.
+  - eapply filterlim_ext_loc; [|apply filterlim_const].
+    exists (mkposreal 1 Rlt_0_1). intros y _ Hy. cbv beta. rewrite unit_of_cscale_any; [reflexivity|apply P; lra].
+  - eapply filterlim_ext_loc; [|apply filterlim_const].
+    exists (mkposreal 1 Rlt_0_1). intros y _ Hy. cbv beta. rewrite unit_of_cscale_any; [reflexivity|apply P; lra].
+  - eapply filterlim_ext_loc; [|apply filterlim_const].
+    exists (mkposreal 1 Rlt_0_1). intros y _ Hy. cbv beta. rewrite unit_of_cscale_any; [reflexivity|apply P; lra].
+  - eapply filterlim_ext_loc; [|apply filterlim_const].
+    exists (mkposreal 1 Rlt_0_1). intros y _ Hy. cbv beta. rewrite unit_of_cscale_any; [reflexivity|apply P; lra].
+Qed.
+
+Lemma lim_right_ext f g t0 u : (forall tau, f tau = g tau) -> lim_right f t0 u -> lim_right g t0 u.
+Proof.
+  intros E [A B]. split; eapply filterlim_ext; try eassumption; intros; cbv beta; rewrite E; reflexivity.
+Qed.
+Lemma lim_left_ext f g t0 u : (forall tau, f tau = g tau) -> lim_left f t0 u -> lim_left g t0 u.
+Proof.
+  intros E [A B]. split; eapply filterlim_ext; try eassumption; intros; cbv beta; rewrite E; reflexivity.
+Qed.
+
+(* cubic curve: Taylor form of the derivative over R *)
+Lemma cub_taylor_R (a3 a2 a1 a0 : Cplx R) t0 tau :
+  let p := [a3; a2; a1; a0] in
+  DkR p 1 t0 = (0, 0) ->
+  DkR p 1 tau = cscale NR (tau - t0)
+                  (cadd NR (DkR p 2 t0) (cscale NR (tau - t0) (cscale NR (/ 2) (DkR p 3 t0)))).
+Proof.
+  intros p H1. unfold p. rewrite (cub_taylor NumR_ok a3 a2 a1 a0 t0 tau). cbv zeta. fold p. rewrite H1.
+  rewrite two_R. destruct (DkR p 2 t0) as [x2 y2], (DkR p 3 t0) as [x3 y3].
+  unfold cadd, cscale; cbn [fst snd re im NumR add sub mul div]. f_equal; field.
+Qed.
+Lemma cub_taylor_R2 (a3 a2 a1 a0 : Cplx R) t0 tau :
+  let p := [a3; a2; a1; a0] in
+  DkR p 1 t0 = (0, 0) -> DkR p 2 t0 = (0, 0) ->
+  DkR p 1 tau = cscale NR ((tau - t0) * (tau - t0) / 2) (DkR p 3 t0).
+Proof.
+  intros p H1 H2. unfold p. rewrite (cub_taylor NumR_ok a3 a2 a1 a0 t0 tau). cbv zeta. fold p. rewrite H1, H2.
+  rewrite two_R. destruct (DkR p 3 t0) as [x3 y3].
+  unfold cadd, cscale; cbn [fst snd re im NumR add sub mul div]. f_equal; field.
+Qed.
+Lemma quad_taylor_R (a2 a1 a0 : Cplx R) t0 tau :
+  let p := [a2; a1; a0] in
+  DkR p 1 t0 = (0, 0) ->
+  DkR p 1 tau = cscale NR (tau - t0) (cadd NR (DkR p 2 t0) (cscale NR (tau - t0) (0, 0))).
+Proof.
+  intros p H1. unfold p. rewrite (quad_taylor NumR_ok a2 a1 a0 t0 tau). cbv zeta. fold p. rewrite H1.
+  destruct (DkR p 2 t0) as [x2 y2].
+  unfold cadd, cscale; cbn [fst snd re im NumR add sub mul div]. f_equal; ring.
+Qed.
+
+(* the limit of d/|d| from inside the parameter interval, at a zero of the derivative *)
+Lemma cubic_limit_k1 (a3 a2 a1 a0 : Cplx R) t0 :
+  let p := [a3; a2; a1; a0] in
+  DkR p 1 t0 = (0, 0) -> DkR p 2 t0 <> (0, 0) ->
+  lim_right (tangent_quot p) t0 (unit_of NR TR (DkR p 2 t0)) /\
+  lim_left (tangent_quot p) t0 (copp NR (unit_of NR TR (DkR p 2 t0))).
+Proof.
+  intros p H1 H2. subst p. split.
+  - eapply lim_right_ext; [|apply (lim_right_simple (cscale NR (/ 2) (DkR [a3; a2; a1; a0] 3 t0)) t0 H2)].
+    intros tau. unfold tangent_quot. rewrite (cub_taylor_R tau H1). reflexivity.
+  - eapply lim_left_ext; [|apply (lim_left_simple (cscale NR (/ 2) (DkR [a3; a2; a1; a0] 3 t0)) t0 H2)].
+    intros tau. unfold tangent_quot. rewrite (cub_taylor_R tau H1). reflexivity.
+Qed.
+Lemma cubic_limit_k2 (a3 a2 a1 a0 : Cplx R) t0 :
+  let p := [a3; a2; a1; a0] in
+  DkR p 1 t0 = (0, 0) -> DkR p 2 t0 = (0, 0) ->
+  lim_right (tangent_quot p) t0 (unit_of NR TR (DkR p 3 t0)) /\
+  lim_left (tangent_quot p) t0 (unit_of NR TR (DkR p 3 t0)).
+Proof.
+  intros p H1 H2. subst p. destruct (lim_double (DkR [a3; a2; a1; a0] 3 t0) t0) as [A B]. split.
+  - eapply lim_right_ext; [|exact A].
+    intros tau. unfold tangent_quot. rewrite (cub_taylor_R2 tau H1 H2). reflexivity.
+  - eapply lim_left_ext; [|exact B].
+    intros tau. unfold tangent_quot. rewrite (cub_taylor_R2 tau H1 H2). reflexivity.
+Qed.
+Lemma quad_limit_k1 (a2 a1 a0 : Cplx R) t0 :
+  let p := [a2; a1; a0] in
+  DkR p 1 t0 = (0, 0) -> DkR p 2 t0 <> (0, 0) ->
+  lim_right (tangent_quot p) t0 (unit_of NR TR (DkR p 2 t0)) /\
+  lim_left (tangent_quot p) t0 (copp NR (unit_of NR TR (DkR p 2 t0))).
+Proof.
+  intros p H1 H2. subst p. split.
+  - eapply lim_right_ext; [|apply (lim_right_simple (0, 0) t0 H2)].
+    intros tau. unfold tangent_quot. rewrite (quad_taylor_R tau H1). reflexivity.
+  - eapply lim_left_ext; [|apply (lim_left_simple (0, 0) t0 H2)].
+    intros tau. unfold tangent_quot. rewrite (quad_taylor_R tau H1). reflexivity.
 Qed.
